@@ -54,3 +54,15 @@ func IsIdent(test string) bool {
 
 	return true
 }
+
+// IsKeyword reports whether the lexer reads the word as a keyword (or literal word) instead of an identifier.
+// Printers use it: such a word can only be the key of an object field when it is written as a string.
+func IsKeyword(word string) bool {
+	switch word {
+	case "true", "on", "false", "off", "null", "none", "pub", "fn", "if", "else", "match", "for", "while", "loop",
+		"break", "continue", "return", "import", "as", "from", "let", "in", "type", "try", "catch", "new", "spawn",
+		"event", "impl", "with", "templ", "trigger", "_":
+		return true
+	}
+	return false
+}
